@@ -69,6 +69,17 @@ Theorem C02_ai_PPlus_is_P_minus_G_PHt (p : ArtInertia (T:=R)) G PH : (forall v y
   forall v y, dot KR (papply AR (pdown AR p G PH) v) y = dot KR (papply AR p v) y - Bf KR G PH v y.
 Proof. exact (ai_pdown_app p G PH). Qed.
 
+(** the per-body hypothesis is discharged for bodies with at most 2 mobilities: the model's Gauss-Jordan inverse of a
+    symmetric D with non-zero pivots is a symmetric inverse *)
+Theorem C02_body_ok_dof_le_2 {X} (nd : X -> node (SpatialVec R) (Vec3 R) (SpInertia (T:=R))) (dy : X -> dyn R (SpatialVec R)) (t : tree X) y :
+  In y (flatten (abi_pass KR AR nd t)) ->
+  length (d_f (dy (fst y))) = length (n_H (nd (fst y))) ->
+  (length (n_H (nd (fst y))) = 0%nat /\ a_D (snd y) = [])
+  \/ (exists d, length (n_H (nd (fst y))) = 1%nat /\ a_D (snd y) = [[d]] /\ d <> 0)
+  \/ (exists a b c, length (n_H (nd (fst y))) = 2%nat /\ a_D (snd y) = [[a; b]; [b; c]] /\ a <> 0 /\ a * c - b * b <> 0) ->
+  body_ok nd dy y.
+Proof. exact (body_ok_small nd dy t y). Qed.
+
 (** non-vacuity: the hypotheses of the main theorem hold on a concrete tree with the model's Gauss-Jordan inverse *)
 Theorem C02_example_hypotheses_hold : forall y, In y (flatten (abi_pass KR AR ex_nd ex_t)) -> body_ok ex_nd ex_dy y.
 Proof. exact ex_ok. Qed.
@@ -86,5 +97,6 @@ Print Assumptions C02_ai_shift_is_phi_P_phiT.
 Print Assumptions C02_ai_symmetric.
 Print Assumptions C02_ai_of_spatial_inertia.
 Print Assumptions C02_ai_PPlus_is_P_minus_G_PHt.
+Print Assumptions C02_body_ok_dof_le_2.
 Print Assumptions C02_example_hypotheses_hold.
 Print Assumptions C02_example_fd_then_rnea_zero.
